@@ -1,3 +1,4 @@
+import Bng.Map
 import Bng.Model.IPArith
 /-
   Model of the hash-based central allocation `(*Client).allocateFromPool` (pkg/nexus/client.go):
@@ -43,5 +44,100 @@ def fnv1a (bytes : List Nat) : Nat :=
 
 /-- the exclusion clause of finding D1: the two ids fall on the same host offset -/
 def collide (c : Cfg) (h₁ h₂ : Nat) : Bool := offset c h₁ == offset c h₂
+
+
+/-! ## the client around it: `AllocateIPForSubscriber`, `ReleaseSubscriberIP`, `LookupSubscriberIP`
+    (pkg/nexus/client.go) over the subscriber, ISP and pool records of the store -/
+namespace Client
+open Bng
+
+/-- the fields of a subscriber record the allocation path reads and writes -/
+structure Sub where
+  pool : Option Nat      -- IPv4Pool ("" = none)
+  isp  : Option Nat      -- ISPID
+  addr : Option Nat      -- IPv4Addr ("" = none)
+  hash : Nat             -- hashString(ID)
+  deriving Repr, DecidableEq
+
+structure State where
+  pools : AMap Nat Cfg             -- pool records, read from the store on every allocation
+  isps  : AMap Nat (Option Nat)    -- ISP record ↦ its first IPv4 pool (IPv4Pools[0]), if any
+  subs  : AMap Nat Sub
+  deriving Repr
+
+def init : State := { pools := [], isps := [], subs := [] }
+
+inductive Obs where
+  | okAddr (a : Nat)
+  | ok
+  | nosub
+  | nopool          -- "no IPv4 pool configured for subscriber"
+  | nopoolrec       -- the pool record does not exist
+  | nohosts         -- "pool has no usable addresses"
+  | none
+  deriving Repr, DecidableEq
+
+/-- AllocateIPForSubscriber: a stored address is returned as it is; otherwise the address is computed
+    from the pool record AS IT IS NOW (the subscriber's own pool, else the first pool of its ISP) and
+    stored together with the pool id. -/
+def alloc (s : State) (k : Nat) : State × Obs :=
+  match s.subs.lookup k with
+  | Option.none => (s, .nosub)
+  | some sub =>
+    match sub.addr with
+    | some a => (s, .okAddr a)
+    | Option.none =>
+      let poolID := match sub.pool with
+        | some p => some p
+        | Option.none => match sub.isp with
+          | some i => (s.isps.lookup i).join
+          | Option.none => Option.none
+      match poolID with
+      | Option.none => (s, .nopool)
+      | some p =>
+        match s.pools.lookup p with
+        | Option.none => (s, .nopoolrec)
+        | some c =>
+          match addrOfHash c sub.hash with
+          | Option.none => (s, .nohosts)
+          | some a => ({ s with subs := AMap.insert s.subs k { sub with addr := some a, pool := some p } }, .okAddr a)
+
+/-- ReleaseSubscriberIP -/
+def release (s : State) (k : Nat) : State × Obs :=
+  match s.subs.lookup k with
+  | Option.none => (s, .nosub)
+  | some sub =>
+    match sub.addr with
+    | Option.none => (s, .ok)
+    | some _ => ({ s with subs := AMap.insert s.subs k { sub with addr := Option.none } }, .ok)
+
+/-- LookupSubscriberIP -/
+def lookup (s : State) (k : Nat) : Obs :=
+  match s.subs.lookup k with
+  | Option.none => .none
+  | some sub => match sub.addr with
+    | some a => .okAddr a
+    | Option.none => .none
+
+inductive Op where
+  | pool (p : Nat) (c : Cfg)                              -- the pool record is written (created or edited)
+  | isp (i : Nat) (first : Option Nat)                    -- the ISP record is written
+  | sub (k : Nat) (pool isp : Option Nat) (hash : Nat)    -- the subscriber record is (re)provisioned, without address
+  | alloc (k : Nat)
+  | release (k : Nat)
+  | lookup (k : Nat)
+  deriving Repr, DecidableEq
+
+def step (s : State) : Op → State × Obs
+  | .pool p c => ({ s with pools := AMap.insert s.pools p c }, .ok)
+  | .isp i f => ({ s with isps := AMap.insert s.isps i f }, .ok)
+  | .sub k p i h => ({ s with subs := AMap.insert s.subs k { pool := p, isp := i, addr := Option.none, hash := h } }, .ok)
+  | .alloc k => alloc s k
+  | .release k => release s k
+  | .lookup k => (s, lookup s k)
+
+def run (s : State) (ops : List Op) : State := ops.foldl (fun st op => (step st op).1) s
+
+end Client
 
 end Bng.NexusHash
